@@ -2,7 +2,9 @@
 (* TLC compares the limb-tuple definitions of EcdsaBig with the native-integer definitions of EcGroup / Ecdsa on the
    synthetic curves: same inputs, both evaluations, for every secret (Sign), for every owner signature, its neighbour and the boundary grid (Verify), for
    every scalar (point multiplication) and for the digest conversions of the whole digest corpus shapes.
-   Run once per check (a few seconds); EcdsaTrace then uses EcdsaBig alone on the 32 built-in curves.            *)
+   Run once per check (a few seconds); EcdsaTrace then uses EcdsaBig alone on the 32 built-in curves.
+   The Y-operators of EcdsaBigX are compared with their definitions as well.  (The published signature examples
+   are re-derived by the module EcdsaVectors, a separate TLC run.)                                                 *)
 EXTENDS EcdsaBig, TLC
 N == INSTANCE Ecdsa
 K == INSTANCE EcCurves
@@ -31,6 +33,10 @@ HashAgrees(cv) == \A al \in AlgSet : \A o \in { "be", "le" } :
       /\ { FromInt(e) : e \in N!HashESet(cv, al, o, hb) } = BHashESet(Big(cv), al, o, hb)
       /\ FromInt(N!LcbE(cv, al, N!LcbHashInt(cv, o, hb))) = BLcbE(Big(cv), al, o, hb)
 
+ASSUME \A t \in { << FromInt(65535), One, FromInt(65536) >>, << One, FromInt(65535), FromInt(65537) >>, << Zero, Zero, One >>,
+                  << Sub(Pow2(90), One), Sub(Pow2(90), One), Pow2(90) >>, << Pow2(200), Sub(Pow2(255), One), Pow2(255) >> } :
+          /\ YAddMod(t[1], t[2], t[3]) = DAddMod(t[1], t[2], t[3]) /\ YSubMod(t[1], t[2], t[3]) = DSubMod(t[1], t[2], t[3])
+          /\ YSubMod(t[2], t[1], t[3]) = DSubMod(t[2], t[1], t[3])
 ASSUME MulAgrees(K!E8G) /\ MulAgrees(K!E8C4)
 ASSUME SignAgrees(K!E8G, { 1, 7, 228 }, { 0, 1, 114 }) /\ SignAgrees(K!E8C4, { 5 }, { 0, 3 })
 ASSUME VerifyAgrees(K!E8G, 7, { 0, 5 }) /\ VerifyAgrees(K!E8C4, 12, { 1 })
